@@ -168,8 +168,12 @@ def classify(rec):
         # defects whose model predicts the observed outcome, and attribute the
         # disagreement to a defect of that set whose repair alone excludes it.
         got = rec["got"]
-        allk = (KEY_IDCASE, KEY_MENTRY, KEY_REGEXP, KEY_EXCEPT)
-        for size in (4, 3, 2, 1):
+        # Only defects listed as open can be present: a finding marked fixed is
+        # repaired in /repo and must not be used to explain anything.
+        kf = vlib.known_findings()
+        allk = tuple(k for k in (KEY_IDCASE, KEY_MENTRY, KEY_REGEXP, KEY_EXCEPT)
+                     if kf.get(("C03", k), {}).get("status") == "open")
+        for size in range(len(allk), 0, -1):
             for base in itertools.combinations(allk, size):
                 if got not in pred(set(base)):
                     continue
